@@ -14,6 +14,7 @@ import (
 
 	"verif/harness/h"
 
+	"github.com/itchio/lake"
 	"github.com/itchio/lake/pools/fspool"
 	"github.com/itchio/lake/tlc"
 	"github.com/itchio/wharf/pwr"
@@ -575,6 +576,9 @@ type PatchSpec struct {
 	Pair     h.Pair  `json:"pair"`
 	Optimize bool    `json:"optimize,omitempty"`
 	Damage   []h.Dmg `json:"damage,omitempty"` // applied to the old build before patching (no safekeeper)
+	// Jitter: the old build is read through readers that slice their reads and (first byte odd) return their
+	// last bytes together with io.EOF: a Transpose copies straight from such a reader into the pool's writer
+	Jitter []byte `json:"jitter,omitempty"`
 }
 
 func checkViaPatcher(s PatchSpec) h.Result {
@@ -622,7 +626,14 @@ func checkViaPatcher(s PatchSpec) h.Result {
 		return h.Failf("patcher.New: %v", err)
 	}
 	os.MkdirAll(out, 0o755)
-	tp := fspool.New(p.GetTargetContainer(), dd)
+	var tp lake.Pool = fspool.New(p.GetTargetContainer(), dd)
+	if len(s.Jitter) > 0 {
+		tp = &h.JitterPool{Pool: tp, J: h.NewJitter(s.Jitter, 0)}
+		cl = append(cl, "old-readers:sliced")
+		if s.Jitter[0]&1 == 1 {
+			cl = append(cl, "old-readers:last-bytes-with-EOF")
+		}
+	}
 	vp := &pwr.ValidatingPool{Pool: fspool.New(si.Container, out), Container: si.Container, Signature: si}
 	b, err := bowl.NewPoolBowl(bowl.PoolBowlParams{TargetContainer: p.GetTargetContainer(), SourceContainer: p.GetSourceContainer(), TargetPool: tp, OutputPool: vp})
 	if err != nil {
@@ -785,6 +796,9 @@ var propPatcher = h.Prop[PatchSpec]{
 				}
 			}
 			s.Damage = keep
+		}
+		if rapid.IntRange(0, 2).Draw(t, "sliced-old-readers") == 0 {
+			s.Jitter = rapid.SliceOfN(rapid.Byte(), 1, 8).Draw(t, "jitter")
 		}
 		return s
 	},
